@@ -32,8 +32,26 @@ structure Cfg.Good (c : Cfg) : Prop extends Cfg.BootGood c where
 /-- one object against the kernel, for the frozen boot time `B` -/
 structure ObjOK (clk : Nat) (k : Kernel) (B : Nat) (o : PObj) : Prop where
   ghost_lt : o.ghost < k.clock
-  ident_eq : o.ident = o.ghost + clk * B
+  ident_eq : o.ident = some (o.ghost + clk * B)
+  ctime_eq : o.ctime = o.ident
   dead : (o.gone || o.reused) = true → k.owner o.pid ≠ some o.ghost
+  nohide : k.hidden = []
+
+theorem hidden_apply {k : Kernel} (e : KEv) (he : e.OK) (h : k.hidden = []) : (k.apply e).hidden = [] := by
+  cases e with
+  | spawn p => simp only [Kernel.apply]; split <;> exact h
+  | exit p => exact h
+  | reap p => exact h
+  | tick n => exact h
+  | setBtime b => exact h
+  | perm p e => rw [(apply_perm_rest k p e).2.2.2]; exact h
+  | hide p b =>
+    simp only [KEv.OK] at he
+    subst he
+    simp [Kernel.apply, h]
+
+theorem isHidden_false {k : Kernel} (h : k.hidden = []) (pid : Nat) : k.isHidden pid = false := by
+  simp [Kernel.isHidden, h]
 
 structure PInv (clk : Nat) (k : Kernel) (ps : Ps) : Prop where
   boot_nz : ∀ B, ps.bootTime = some B → B ≠ 0
@@ -41,14 +59,14 @@ structure PInv (clk : Nat) (k : Kernel) (ps : Ps) : Prop where
   /-- every entry of process_iter's cache points at an object of that PID -/
   pmap : ∀ e ∈ ps.pmap, ∃ o, ps.objs[e.2]? = some o ∧ o.pid = e.1
 
-theorem ObjOK.apply {clk : Nat} {k : Kernel} {B : Nat} {o : PObj} (h : ObjOK clk k B o) (e : KEv) :
+theorem ObjOK.apply {clk : Nat} {k : Kernel} {B : Nat} {o : PObj} (h : ObjOK clk k B o) (e : KEv) (he : e.OK) :
     ObjOK clk (k.apply e) B o :=
-  ⟨Nat.lt_of_lt_of_le h.ghost_lt (clock_mono k e), h.ident_eq,
-   fun hd => dead_stays_dead k e o.pid o.ghost h.ghost_lt (h.dead hd)⟩
+  ⟨Nat.lt_of_lt_of_le h.ghost_lt (clock_mono k e), h.ident_eq, h.ctime_eq,
+   fun hd => dead_stays_dead k e o.pid o.ghost h.ghost_lt (h.dead hd), hidden_apply e he h.nohide⟩
 
-theorem PInv.apply {clk : Nat} {k : Kernel} {ps : Ps} (h : PInv clk k ps) (e : KEv) :
+theorem PInv.apply {clk : Nat} {k : Kernel} {ps : Ps} (h : PInv clk k ps) (e : KEv) (he : e.OK) :
     PInv clk (k.apply e) ps :=
-  ⟨h.boot_nz, fun o ho => let ⟨B, hb, hok⟩ := h.objs o ho; ⟨B, hb, hok.apply e⟩, h.pmap⟩
+  ⟨h.boot_nz, fun o ho => let ⟨B, hb, hok⟩ := h.objs o ho; ⟨B, hb, hok.apply e he⟩, h.pmap⟩
 
 /-! ### boot time -/
 
@@ -76,13 +94,14 @@ structure Evolves (o o' : PObj) : Prop where
   pid : o'.pid = o.pid
   ghost : o'.ghost = o.ghost
   ident : o'.ident = o.ident
+  ctime : o'.ctime = o.ctime
   gone : o.gone = true → o'.gone = true
   reused : o.reused = true → o'.reused = true
 
-theorem Evolves.refl (o : PObj) : Evolves o o := ⟨rfl, rfl, rfl, id, id⟩
+theorem Evolves.refl (o : PObj) : Evolves o o := ⟨rfl, rfl, rfl, rfl, id, id⟩
 
 theorem Evolves.trans {a b c : PObj} (h1 : Evolves a b) (h2 : Evolves b c) : Evolves a c :=
-  ⟨h2.pid.trans h1.pid, h2.ghost.trans h1.ghost, h2.ident.trans h1.ident,
+  ⟨h2.pid.trans h1.pid, h2.ghost.trans h1.ghost, h2.ident.trans h1.ident, h2.ctime.trans h1.ctime,
    fun h => h2.gone (h1.gone h), fun h => h2.reused (h1.reused h)⟩
 
 /-- what a method call may change in the module state: not the boot time, not the objects, not
@@ -119,17 +138,17 @@ theorem isRunningO_spec {c : Cfg} (hc : c.BootGood) {k : Kernel} {ps : Ps} {B : 
     cases hf : k.find o.pid with
     | none =>
       simp only [mkObj, hf]
-      refine ⟨PsSame.refl _, ⟨rfl, rfl, rfl, fun _ => rfl, id⟩, ⟨hok.ghost_lt, hok.ident_eq, ?_⟩, ?_, ?_, ?_⟩
+      refine ⟨PsSame.refl _, ⟨rfl, rfl, rfl, rfl, fun _ => rfl, id⟩, { hok with dead := ?_ }, ?_, ?_, ?_⟩
       · intro _; simp [Kernel.owner, hf]
       · simp [Kernel.owner, hf]
       · intro _; rfl
       · intro h; cases h
     | some x =>
-      simp only [mkObj, hf, bootForCreate_some hc hb hnz]
-      by_cases hid : o.ident = x.start + c.clk * B
+      simp only [mkObj, hf, bootForCreate_some hc hb hnz, isHidden_false hok.nohide, Bool.false_eq_true, if_false]
+      by_cases hid : o.ident = some (x.start + c.clk * B)
       · rw [if_neg (by simpa using hid)]
         have hx : x.start = o.ghost := by
-          have := hok.ident_eq; omega
+          have := hok.ident_eq; rw [hid] at this; simp only [Option.some.injEq] at this; omega
         refine ⟨PsSame.refl _, Evolves.refl _, hok, ?_, ?_, ?_⟩
         · simp [Kernel.owner, hf, hx]
         · intro h; cases h
@@ -137,8 +156,8 @@ theorem isRunningO_spec {c : Cfg} (hc : c.BootGood) {k : Kernel} {ps : Ps} {B : 
       · rw [if_pos (by simpa using hid)]
         have hx : x.start ≠ o.ghost := by
           intro e; apply hid; rw [hok.ident_eq, e]
-        refine ⟨⟨rfl, rfl, rfl⟩, ⟨rfl, rfl, rfl, fun _ => rfl, fun _ => rfl⟩,
-          ⟨hok.ghost_lt, hok.ident_eq, ?_⟩, ?_, ?_, ?_⟩
+        refine ⟨⟨rfl, rfl, rfl⟩, ⟨rfl, rfl, rfl, rfl, fun _ => rfl, fun _ => rfl⟩,
+          { hok with dead := ?_ }, ?_, ?_, ?_⟩
         · intro _; simp [Kernel.owner, hf, hx]
         · simp [Kernel.owner, hf, hx]
         · intro _; rfl
@@ -166,7 +185,8 @@ theorem signalM_eq (c : Cfg) (k : Kernel) (ps : Ps) (o : PObj) (m : SigMethod) :
         | none => ⟨(guardedO c c.guardSignal k ps o).1, { (guardedO c c.guardSignal k ps o).2.1 with gone := true },
                     none, .exc (.noSuchProcess o.pid)⟩
         | some x => ⟨(guardedO c c.guardSignal k ps o).1, (guardedO c c.guardSignal k ps o).2.1,
-                    some (.kill, o.pid, [(sigOf c m : Int)], some x.start), .unit⟩ := rfl
+                    some (.kill, o.pid, [(sigOf c m : Int)], some x.start, k.refusal o.pid),
+                    outOf o.pid (k.refusal o.pid)⟩ := rfl
 
 theorem setterM_eq (c : Cfg) (k : Kernel) (ps : Ps) (o : PObj) (kind : SetKind) (args : List Int) :
     setterM c k ps o kind args =
@@ -182,7 +202,7 @@ theorem setterM_eq (c : Cfg) (k : Kernel) (ps : Ps) (o : PObj) (kind : SetKind) 
           | none => ⟨(guardedO c (guardOf c kind) k ps o).1, (guardedO c (guardOf c kind) k ps o).2.1, none,
                       .exc (.noSuchProcess o.pid)⟩
           | some x => ⟨(guardedO c (guardOf c kind) k ps o).1, (guardedO c (guardOf c kind) k ps o).2.1,
-                      some (.set kind, o.pid, a, some x.start), .unit⟩ := rfl
+                      some (.set kind, o.pid, a, some x.start, k.refusal o.pid), outOf o.pid (k.refusal o.pid)⟩ := rfl
 
 theorem ppidM_eq (c : Cfg) (k : Kernel) (ps : Ps) (o : PObj) :
     ppidM c k ps o =
@@ -192,7 +212,8 @@ theorem ppidM_eq (c : Cfg) (k : Kernel) (ps : Ps) (o : PObj) :
         match k.find o.pid with
         | none => ⟨(guardedO c c.guardPpid k ps o).1, (guardedO c c.guardPpid k ps o).2.1, none,
                     .exc (.noSuchProcess o.pid)⟩
-        | some _ => ⟨(guardedO c c.guardPpid k ps o).1, (guardedO c c.guardPpid k ps o).2.1, none, .unit⟩ := rfl
+        | some _ => ⟨(guardedO c c.guardPpid k ps o).1, (guardedO c c.guardPpid k ps o).2.1, none,
+                    if k.isHidden o.pid then .exc (.accessDenied o.pid) else .unit⟩ := rfl
 
 /-- what every guard / method keeps -/
 structure Keeps (clk : Nat) (k : Kernel) (B : Nat) (ps : Ps) (o : PObj) (ps' : Ps) (o' : PObj) : Prop where
@@ -261,10 +282,10 @@ theorem guarded_false_iff {c : Cfg} (hc : c.BootGood) (hg : c.goneRaises = true)
 theorem Keeps.setGone {clk : Nat} {k : Kernel} {B : Nat} {ps ps' : Ps} {o o' : PObj}
     (h : Keeps clk k B ps o ps' o') (hf : k.find o.pid = none) :
     Keeps clk k B ps o ps' { o' with gone := true } :=
-  ⟨h.same, ⟨h.evo.pid, h.evo.ghost, h.evo.ident, fun _ => rfl, h.evo.reused⟩,
-   ⟨h.ok.ghost_lt, h.ok.ident_eq, fun _ => by
+  ⟨h.same, ⟨h.evo.pid, h.evo.ghost, h.evo.ident, h.evo.ctime, fun _ => rfl, h.evo.reused⟩,
+   ⟨h.ok.ghost_lt, h.ok.ident_eq, h.ok.ctime_eq, fun _ => by
       show k.owner o'.pid ≠ some o'.ghost
-      rw [h.evo.pid]; simp [Kernel.owner, hf]⟩⟩
+      rw [h.evo.pid]; simp [Kernel.owner, hf], h.ok.nohide⟩⟩
 
 theorem signalM_keeps {c : Cfg} (hc : c.BootGood) {k : Kernel} {ps : Ps} {B : Nat} {o : PObj}
     (hb : ps.bootTime = some B) (hnz : B ≠ 0) (hok : ObjOK c.clk k B o) (m : SigMethod) :
@@ -309,7 +330,10 @@ theorem method_keeps {c : Cfg} (hc : c.BootGood) {k : Kernel} {ps : Ps} {B : Nat
   · subst hm; exact signalM_keeps hc hb hnz hok _
   · subst hm; exact setterM_keeps hc hb hnz hok _ _
   · subst hm; exact ppidM_keeps hc hb hnz hok
-  · subst hm; exact ⟨PsSame.refl _, Evolves.refl _, hok⟩
+  · subst hm
+    have hct : o.ctime = some (o.ghost + c.clk * B) := hok.ctime_eq.trans hok.ident_eq
+    simp only [createTimeM, hct]
+    exact ⟨PsSame.refl _, Evolves.refl _, hok⟩
   · subst hm; exact ⟨PsSame.refl _, Evolves.refl _, hok⟩
 
 end Psutil.C01
